@@ -15,7 +15,7 @@ namespace Driver.DutyDB
 /-- The configuration the tree under test is expected to have. FLIP HERE when a proposed fix is
 applied to /repo: `⟨true, false⟩` after fixes/C06-agg-keep-first.diff, `⟨_, true⟩` after
 fixes/C06-slot-check.diff (fields: keepFirstAgg, checkSlot). -/
-def defaultCfg : Cfg := Cfg.asIs
+def defaultCfg : Cfg := { keepFirstAgg := true, checkSlot := false }  -- D-4 fixed in /repo (6cb0484); D-5 recorded
 
 structure DState where
   cfg : Cfg := defaultCfg
